@@ -197,6 +197,10 @@ func Same(a, b tengo.Object) bool {
 		// functions are compared as "is a function" only
 		_, ok := b.(*tengo.CompiledFunction)
 		return ok
+	case *tengo.UserFunction:
+		// host functions have no comparable identity (Copy drops the name): by kind
+		_, ok := b.(*tengo.UserFunction)
+		return ok
 	case *tengo.BuiltinFunction:
 		y, ok := b.(*tengo.BuiltinFunction)
 		return ok && x.Name == y.Name
